@@ -145,6 +145,10 @@ def main(argv):
         return 0
     t0 = time.time()
     cells = [c for c in check['cells'] if tier == 'thorough' or not c.get('thorough_only')]
+    if os.environ.get('VF_CELLS'):  # development aid (tools/seedrun.py): restrict to the named cells
+        names = os.environ['VF_CELLS'].split(',')
+        cells = [c for c in cells if c['name'] in names or any(c['name'].startswith(n[:-1]) for n in names if n.endswith('*'))]
+    outdir = os.environ.get('VF_OUT') or ROOT  # evidence/replays of runs against a scratch copy never land in /verif
     known = [k for k in json.load(open(os.path.join(ROOT, 'known_findings.json')))['findings'] if k['property'] == pid]
     jobs = int(os.environ.get('VF_JOBS', '0') or 0) or min(16, os.cpu_count() or 4)
     digest = tree_digest()
@@ -176,15 +180,15 @@ def main(argv):
         else:
             print('INCONCLUSIVE cell=%s status=%s paths=%s (not exhausted within %ss; nothing found on the paths explored)'
                   % (r['cell'], st, r.get('paths'), r.get('timeout_s')))
-    os.makedirs(os.path.join(ROOT, 'replays'), exist_ok=True)
-    os.makedirs(os.path.join(ROOT, 'evidence'), exist_ok=True)
+    os.makedirs(os.path.join(outdir, 'replays'), exist_ok=True)
+    os.makedirs(os.path.join(outdir, 'evidence'), exist_ok=True)
     rc = 0
     for kf, r in known_hit:
         print('KNOWN-FINDING: property=%s %s [%s] input=%s' % (pid, kf['what'], kf['id'], json.dumps(r['replay_input'])))
     for r in violations:
         body = json.dumps(dict(property=pid, cell=r['cell'], input=r['replay_input'], result=r['replay_result'],
                                solver_message=r.get('cex_message')), indent=1)
-        path = os.path.join(ROOT, 'replays', '%s-%s.json' % (pid, hashlib.sha1(body.encode()).hexdigest()[:10]))
+        path = os.path.join(outdir, 'replays', '%s-%s.json' % (pid, hashlib.sha1(body.encode()).hexdigest()[:10]))
         open(path, 'w').write(body)
         print('VIOLATION property=%s replay=%s' % (pid, path))
         print('  cell=%s input=%s %s' % (r['cell'], r['replay_input'], r['replay_result']))
@@ -228,7 +232,7 @@ def main(argv):
         wall_s=round(time.time() - t0, 2),
         violations=len(violations),
     )
-    json.dump(ev, open(os.path.join(ROOT, 'evidence', pid + '.json'), 'w'), indent=1)
+    json.dump(ev, open(os.path.join(outdir, 'evidence', pid + '.json'), 'w'), indent=1)
     print('%s tier=%s cells=%d discharged=%d paths=%d z3_queries=%d violations=%d known=%d wall=%.0fs'
           % (pid, tier, len(cells), discharged, paths, queries, len(violations), len(known_hit), time.time() - t0))
     return rc
